@@ -177,7 +177,11 @@ func (fc *FCtx) oblige(st *State, kind, goal, clause string, pos token.Pos) {
 	}
 	o.ObsVars = fc.paramObs
 	fc.Obls = append(fc.Obls, o)
-	st.assume(implies(g, goal))
+	// what has been obliged may be used afterwards - except the unconditional "false" of a callee that may panic: assuming
+	// it would silence every obligation behind the call
+	if goal != "false" {
+		st.assume(implies(g, goal))
+	}
 }
 
 func (fc *FCtx) obligeNamed(st *State, name, kind, goal, clause string, pos token.Pos) {
